@@ -28,9 +28,10 @@ static script_t cur_script;
 static int cb_ran;
 static const jwk_item_t *cb_pubkey;
 
+static script_t *g_script;	/* callbacks registered with a NULL context use this */
 static int the_cb(jwt_t *jwt, jwt_config_t *cfg)
 {
-	script_t *s = cfg->ctx;
+	script_t *s = cfg->ctx ? cfg->ctx : g_script;
 	cb_ran++;
 	for (int i = 0; i < s->n; i++) {
 		cbop_t *o = &s->op[i];
@@ -182,7 +183,8 @@ static void op_setcb(long h, jwt_builder_t *b)
 		printf("]");
 	}
 	printf("]}]\n");
-	jwt_builder_setcb(b, the_cb, s);
+	g_script = s;
+	jwt_builder_setcb(b, the_cb, (h & 1) ? s : NULL);	/* every second history registers its callback without a context */
 }
 static void op_generate(long h, jwt_builder_t *b, const jwk_item_t *curkey_unused)
 {
